@@ -126,6 +126,7 @@ Proof.
   - exact H.
   - exact H.
   - unfold wf. simpl. rewrite keys_freeLeases. exact H.
+  - destruct (tget k (tbl s)); auto using wf_put.
 Qed.
 
 Lemma run_cons c s ch o h :
